@@ -3,9 +3,11 @@ use crate::ctx::Ctx;
 use crate::inst::{gen_instance, Inst, Profile};
 use crate::prng::Rng;
 
+pub mod mcf;
 pub mod net;
 pub mod pipe;
 pub mod sched;
+pub mod swaps;
 pub mod tour;
 pub mod trans;
 
@@ -29,6 +31,29 @@ pub fn generate(scope: &str, name: &str, seed: u64, k: u64, rng: &mut Rng, tier:
             };
             let inst = gen_instance(rng, &p);
             head + &pipe::run(&inst, &workdir(), name, tier)
+        }
+        "mcf" => {
+            let p = match rng.below(3) {
+                0 => Profile::maint_heavy(),
+                1 => Profile::medium(),
+                _ => Profile::small(),
+            };
+            let inst = gen_instance(rng, &p);
+            match load_or_report(inst) {
+                Err(s) => head + &s,
+                Ok(ctx) => head + &ctx.inst.to_text() + &mcf::run(&ctx),
+            }
+        }
+        "swaps" => {
+            let p = match rng.below(3) {
+                0 => Profile::maint_heavy(),
+                _ => Profile::small(),
+            };
+            let inst = gen_instance(rng, &p);
+            match load_or_report(inst) {
+                Err(s) => head + &s,
+                Ok(ctx) => head + &ctx.inst.to_text() + &swaps::generate(&ctx, rng, tier),
+            }
         }
         "sched" => {
             let p = match rng.below(3) {
@@ -82,6 +107,17 @@ pub fn rerun(text: &str) -> String {
     match scope {
         "net" => head + &net::run(inst),
         "pipe" => head + &pipe::run(&inst, &workdir(), t[1], t.get(5).copied().unwrap_or("quick")),
+        "mcf" => match load_or_report(inst) {
+            Err(s) => head + &s,
+            Ok(ctx) => head + &ctx.inst.to_text() + &mcf::run(&ctx),
+        },
+        "swaps" => {
+            // regenerated from the seed of the header (the walk depends on the real neighbourhood)
+            let seed: u64 = t[3].parse().unwrap();
+            let k: u64 = t[4].parse().unwrap();
+            let mut rng = Rng::derive(seed, "swaps", k);
+            generate("swaps", t[1], seed, k, &mut rng, t.get(5).copied().unwrap_or("quick"))
+        }
         "sched" => match load_or_report(inst) {
             Err(s) => head + &s,
             Ok(ctx) => head + &ctx.inst.to_text() + &sched::rerun(&ctx, text),
